@@ -5,7 +5,7 @@ from props.c03 import run_loops
 
 EXPL = ("Wiring + trace conformance: (R04.1) every Payload::Stop marker constructed in the crate flows only into "
         "ForceTxFn::send of the addressed actor (same queue as messages, never the waiting path) and every stop entry "
-        "point reaches such a site before its first await; (R04.2) from the Stop / closed-mailbox edge of both loops no "
+        "point reaches such a site before its first await; (R04.5) that queue is the actor's one FIFO: the waiting, forcing and receive closures hold ends of the same channel; (R04.2) from the Stop / closed-mailbox edge of both loops no "
         "dequeue or handler is reachable; (R04.3) StopNotifier::notify occurs only after the completed stopped(), once, "
         "followed only by the Ok return, never on a failure path; (R04.4) the awaiting APIs (Addr as Future, halt, "
         "try_halt, consume, consume_sync, join) observe exactly that notifier / task result and request the stop first.")
@@ -114,6 +114,9 @@ def run(ctx):
         ctx.require(hit is not None and not uses_waiting, "R04.1", "entry:" + e,
                     "stop entry point does not enqueue Payload::Stop through the forcing closure before its first await (waiting path used: %s)" % uses_waiting,
                     fn=e, site=(hit[1] if hit else fx.fn(e)["loc"]), detail=hit)
+    # R04.5 the ordering argument: Stop travels in the actor's single FIFO queue, behind everything submitted before
+    from props.c01 import check_single_queue
+    check_single_queue(ctx, fx, "tokio", "R04.5", "R04.5")
     # R04.2 / R04.3 loops
     cfgs = ["tokio"] if ctx.tier == "quick" else ["tokio", "smol", "asyncstd", "bare"]
     for cfg in cfgs:
